@@ -2,7 +2,7 @@
 // tree into a scratch directory and mechanically creates the simulation
 // seam (DESIGN.md section 3):
 //
-//  1. import substitution: os, io/ioutil, time, math/rand -> shim packages
+//  1. import substitution: os, io/ioutil, time, math/rand, path/filepath -> shim packages
 //     (the local package name is kept, so no statement changes);
 //  2. map-range determinisation: `for k, v := range m` over a map with an
 //     ordered key type iterates simrt.Keys(m) with a presence re-check;
@@ -32,10 +32,17 @@ var shimOf = map[string]string{
 	"io/ioutil": "verifsim/shim/ioutil",
 	"time":      "verifsim/shim/time",
 	"math/rand": "verifsim/shim/rand",
+	// Glob, Walk, WalkDir, EvalSymlinks look at the disk: a change to the
+	// library that starts using them must see the simulated one.
+	"path/filepath": "verifsim/shim/filepath",
 }
 
+// packages through which a library change could reach the outside world
+// around the shims
+var uncovered = []string{"syscall", "os/exec", "os/signal", "os/user", "net", "crypto/rand", "plugin", "golang.org/x/sys", "unsafe"}
+
 var defaultName = map[string]string{
-	"os": "os", "io/ioutil": "ioutil", "time": "time", "math/rand": "rand",
+	"os": "os", "io/ioutil": "ioutil", "time": "time", "math/rand": "rand", "path/filepath": "filepath",
 }
 
 type edit struct {
@@ -130,6 +137,25 @@ func main() {
 			isTest := strings.HasSuffix(n, "_test.go")
 			var edits []edit
 			off := func(p token.Pos) int { return fset.Position(p).Offset }
+			if !isTest {
+				// Loud rather than silently wrong: sources of nondeterminism or
+				// I/O that no shim covers make the simulation meaningless for
+				// this tree (infrastructure failure, exit 2 - never a verdict).
+				for _, imp := range f.Imports {
+					path := strings.Trim(imp.Path.Value, "\"`")
+					for _, bad := range uncovered {
+						if path == bad || strings.HasPrefix(path, bad+"/") {
+							die(2, "%s imports %q, which the simulation seam does not cover (os, io/ioutil, path/filepath, time and math/rand are simulated); nothing can be decided about this tree", n, path)
+						}
+					}
+				}
+				ast.Inspect(f, func(nd ast.Node) bool {
+					if g, ok := nd.(*ast.GoStmt); ok {
+						die(2, "%s:%d starts a goroutine inside the library: the simulator resumes one simulated process at a time and does not control goroutines the library creates itself; nothing can be decided about this tree", n, fset.Position(g.Pos()).Line)
+					}
+					return true
+				})
+			}
 			for _, imp := range f.Imports {
 				path := strings.Trim(imp.Path.Value, "\"`")
 				if isTest && path == "math/rand" {
